@@ -19,6 +19,32 @@ PROPS = {
         "level_note": "trusted: Lean kernel, tools/extract.py, harness+driver glue; tokio-util/bytes are exercised, not verified; stream ids are < 2^32 (u32)",
         "explanation": "Lean theorems about the frame codec model (AnyTLS/Model/Frame.lean) + differential run of the real FrameCodec against the model + independent reference codec as oracle",
     },
+    "C01": {
+        "level": "proof",
+        "lean_modules": ["AnyTLS.Props.C01"],
+        "groups": [{"group": "pipe", "quick_cases": 400, "thorough_cases": 5000},
+                   {"group": "sess", "quick_cases": 300, "thorough_cases": 5000}],
+        "rule": "pipe case = real client Session + real server Session joined by a relay; ops: open, write/send chunks (sizes from {0,1,2,7,8,100,1000,8191..8193,65534..65537,70000,131071} and random), "
+                "xfer of n bytes in either direction (n from {1,6,7,random,all}: every fragmentation of the wire), reads of sizes {1,random,8192,70000}, noise frames for unknown ids, final drain; "
+                "padding scheme drawn from the scheme generator, draws from the case's PRNG; non-trivial = at least one chunk submitted; distinct by SHA-1 of the op lines",
+        "level_text": "kernel-checked theorems: for every history of chunk deliveries/reads the bytes read are a prefix of, and at end of stream equal to, the bytes submitted (reads_prefix, reads_complete, read_nonempty); chunks of any size are split losslessly (pieces_lossless); "
+                      "for every frame sequence keeping the stream registered and every fragmentation of its encoding the reader receives exactly the payloads addressed to it (stream_delivery, pipe_lossless). Tied to the code by a differential run of two real sessions against two model sessions on identical op sequences and by an end-to-end byte-equality oracle",
+        "level_note": "trusted: Lean kernel, extract.py, harness+driver glue; tokio's scheduler is replaced by 'every operation runs to quiescence' (writer interleavings are C11); the unbounded queues' memory use is not modelled",
+        "assumptions": COMMON_ASSUMPTIONS + ["tokio mpsc unbounded channel = FIFO queue whose receiver sees None once the sender is dropped and the queue drained"],
+        "explanation": "reader/session/codec models + theorems; pipe and sess correspondence groups",
+    },
+    "C02": {
+        "level": "proof",
+        "lean_modules": ["AnyTLS.Props.C02"],
+        "groups": [{"group": "pipe", "quick_cases": 300, "thorough_cases": 5000},
+                   {"group": "sess", "quick_cases": 600, "thorough_cases": 20000}],
+        "rule": "sess case = one real Session (client or server role) on a scripted transport, 4-24 ops from {open, write, ctl, feed of any of the 11 commands x ids {0,1,2,3,5,65536,2^32-1} x payloads, read, readx, send, state, obj, close, eof, rderr, write-budget faults}; "
+                "pipe case as for C01 with noise frames for ids never opened / finished; non-trivial = more than 3 ops; distinct by SHA-1 of the op lines",
+        "level_text": "kernel-checked theorems: a frame addressed to one stream id leaves the complete state of every other id untouched (no_crosstalk, no_crosstalk_history, for all states satisfying the proved-invariant WF and all frame sequences), unknown-id frames are inert, PSH appends exactly its payload to exactly its stream, stream ids are never reused (ids_never_reused, any history of opens and frames of every kind). Tied to the code by the sess/pipe differential runs (tables, per-stream bytes, EOF) on random frame sequences",
+        "level_note": "trusted: Lean kernel, extract.py, harness+driver glue; stream ids below 2^32 (no allocator wrap); a duplicate SYN for an id that is currently open replaces that id's own entry (same stream, not crosstalk)",
+        "assumptions": COMMON_ASSUMPTIONS,
+        "explanation": "session model locality theorems + sess/pipe correspondence",
+    },
 }
 
 NOT_YET = {}
